@@ -1,7 +1,7 @@
 #!/bin/bash
 # usage: tools/run_all.sh [quick|thorough]  - runs every check registered in MANIFEST.json, one after another.
 tier="${1:-quick}"
-cd /verif
+cd "$(dirname "$0")/.."
 rc_all=0
 for id in $(/venv/bin/python -c "import json; print(' '.join(c['property_id'] for c in json.load(open('MANIFEST.json'))['checks']))"); do
   start=$(date +%s)
